@@ -44,18 +44,24 @@ REQUIRED_REACH = {
     "quick": ["history_read", "reread", "construct_shared", "envelope_equivalence",
               "class:mutated_transforms", "class:mutated_response", "class:mode=cube",
               "class:mode=cubeset_tabbook", "class:mode=cubeset_ca0",
-              "class:mode=cubeset_numsum", "class:3d", "class:means_pairwise_defined"],
+              "class:mode=cubeset_numsum", "class:3d", "class:means_pairwise_defined",
+              "class:corpus"],
     "thorough": ["history_read", "reread", "construct_shared", "envelope_equivalence",
                  "thread_read", "class:mutated_transforms", "class:mutated_response",
-                 "class:means_pairwise_defined"],
+                 "class:means_pairwise_defined", "class:corpus"],
 }
 BATCH = 12
 UNIT_TIMEOUT_S = 90
 
 
 def units(tier, seed):
+    from .. import corpus
+
     n = 640 if tier == "quick" else 20000
     out = [{"i": i, "seed": seed, "threads": False} for i in range(n)]
+    # W3: histories on the repository's fixture responses (every second one in the quick tier)
+    cu = corpus.units(tier, seed, reps=1 if tier == "quick" else 6)
+    out += [u for k, u in enumerate(cu) if tier != "quick" or k % 2 == seed % 2]
     if tier == "thorough":
         out += [{"i": i, "seed": seed, "threads": True} for i in range(400)]
     return out
@@ -125,6 +131,15 @@ def _array_transforms(g, spec, tr):
 
 
 def make_case(unit):
+    if "corpus" in unit:
+        from .. import corpus
+
+        rel = corpus.fixture_paths()[unit["corpus"]]
+        g = gen.G("C18/corpus/%s/%s/%s" % (unit["seed"], unit["corpus"], unit["rep"]))
+        return {"mode": "fixture", "template": "fixture", "fixture": rel,
+                "transforms_list": [corpus.random_full_transforms(g, corpus.load(rel))],
+                "population": 1000, "threads": False,
+                "hseed": "hc/%s/%s/%s" % (unit["seed"], unit["corpus"], unit["rep"])}
     i = unit["i"]
     g = gen.G("C18/%s/%s/%s" % (unit["seed"], i, unit["threads"]))
     mode = MODES[i % len(MODES)]
@@ -174,6 +189,11 @@ def make_case(unit):
 
 
 def _responses(case):
+    if case["mode"] == "fixture":
+        from .. import corpus
+
+        d = json.loads(json.dumps(corpus.load(case["fixture"])))
+        return [d.get("value", d)]  # the harness adds the envelope itself
     return [json.loads(json.dumps(sim.build_response(sim.spec_from_dict(d))))
             for d in case["specs"]]
 
@@ -182,7 +202,7 @@ def _build(case, responses, trs, form="dict"):
     """The object under test for shared or fresh argument objects."""
     from cr.cube.cube import Cube, CubeSet
 
-    if case["mode"] == "cube":
+    if case["mode"] in ("cube", "fixture"):
         resp = responses[0]
         if form == "json":
             resp = json.dumps(resp)
@@ -193,7 +213,7 @@ def _build(case, responses, trs, form="dict"):
 
 
 def _partitions(case, obj):
-    if case["mode"] == "cube":
+    if case["mode"] in ("cube", "fixture"):
         return list(obj.partitions)
     return [p for pset in obj.partition_sets for p in pset]
 
@@ -209,8 +229,10 @@ SET_ATTRS = ["available_measures", "can_show_pairwise", "description", "has_nume
 def _outcome(o):
     if o.ok:
         v = o.value
-        if hasattr(v, "row_mask") and hasattr(v, "column_mask"):
-            return ("ok", snap(v))
+        if type(v).__name__ == "MinBaseSizeMask":
+            # (hasattr would evaluate the lazy masks outside a boundary read)
+            return ("ok", [_outcome(read(v, nm)) for nm in ("row_mask", "column_mask",
+                                                            "table_mask")])
         if isinstance(v, tuple) and v and type(v[0]).__name__ == "_ColumnPairwiseSignificance":
             return ("ok", [snap(read(x, "t_stats").value) for x in v])
         return ("ok", snap(v))
@@ -240,7 +262,7 @@ def _entries(case, parts):
                           "pairwise_significance_means_t_stats",
                           "pairwise_significance_means_p_vals"):
                     out.append((j, m, (c,)))
-    for a in (CUBE_ATTRS if case["mode"] == "cube" else SET_ATTRS):
+    for a in (CUBE_ATTRS if case["mode"] in ("cube", "fixture") else SET_ATTRS):
         out.append((-1, a, ()))
     return out
 
@@ -260,6 +282,8 @@ def check_case(case):
     res.classes.append("mode=%s" % case["mode"])
     base_resp = _responses(case)
     base_trs = case["transforms_list"]
+    if case["mode"] == "fixture":
+        res.classes.append("corpus")
     if case["mode"] == "cube" and len(sim.spec_from_dict(case["specs"][0]).facets) == 3:
         res.classes.append("3d")
     # ---- pristine table: one fresh object per entry ----------------------------------------
@@ -300,8 +324,8 @@ def check_case(case):
     for step, e in enumerate(chosen):
         u = r.random()
         if u < 0.08:
-            form = r.choice(["dict", "dict", "json", "envelope"]) if case["mode"] == "cube" \
-                else "dict"
+            form = r.choice(["dict", "dict", "json", "envelope"]) \
+                if case["mode"] in ("cube", "fixture") else "dict"
             new_obj(form)
             history.append(["construct", form])
             res.monitors["construct_shared"] += 1
@@ -343,7 +367,7 @@ def check_case(case):
         res.classes.append("mutated_response")
         mutated = True
     # ---- JSON text / dict / envelope give the same table ------------------------------------------
-    if case["mode"] == "cube":
+    if case["mode"] in ("cube", "fixture"):
         sample = r.sample(sorted(set(chosen), key=repr), min(12, len(set(chosen))))
         for form in ("json", "envelope"):
             ob = _build(case, copy.deepcopy(base_resp), copy.deepcopy(base_trs), form)
